@@ -38,6 +38,34 @@ CLAIMED = {
    text="Seeded operation sequences on the public core-relations API (SortedWritesTable with key arity 0-4, with/without sort column, five merge functions; DisplacedTable; staging through four buffer routes; merge_all incl. the strata path; clear; Database::clone and swap; apply_rebuild; refresh_rows_for_values) in lock-step with a BTreeMap model. After every operation: len, point lookups over the whole key domain, full scans by three routes, constrained scans and fast_subset; at explicit read operations: refine/refine_ref/split_fast_slow/scan_project, updates_since marks, cached column indexes and 1-3 atom rule-set queries against a nested-loop evaluation. A sub-batch runs in fresh processes with every parallel cut-off at 0.",
    note="Preconditions of the API (monotone sort column, merge before clone/query) are respected by construction; behaviour that is unspecified (scan order, staged unions surviving a clear of the union-find table) is canonicalised away.",
    tech="deterministic simulation of operation histories against a keyed-map reference model, checked at every step"),
+ "C01": dict(cat="exploration", ref="DESIGN §5 C01",
+   text="Seeded monotone histories (constructors, relations, lattice functions, rules, rewrites, birewrites with guards, top-level unions/sets/lets, runs, schedules, push/pop) run in lock-step on the engine and on a deliberately naive congruence-closure reference model: after every command and every single iteration the engine's id-free dump must equal the model's, and pairs of existing terms are asked through (check (= a b)) positively and negatively; probe rules copy constructor matches into fresh relations. A tenth of the cases run threaded under the token scheduler; thresholds are drawn per run.",
+   note="The reference model (sim/src/model.rs) is trusted as the oracle; it is itself cross-checked by the model-free differentials (C03, C06, C08, C10). Term pairs come from the terms present in the database. Runs that leave the modelled fragment are inconclusive and counted.",
+   tech="deterministic simulation (seeded histories, token-passing scheduler, threshold knobs) with refinement checking against an executable reference model at every step"),
+ "C02": dict(cat="exploration", ref="DESIGN §5 C02",
+   text="One seeded conjunctive rule (chain, star, cycle, clique, ternary tree or random connected hypergraph over 2-5 variables, decorated with constants, repeated variables, unary filters, primitive guards, computed equalities, duplicate atoms) over seeded relations with 0-60 skewed rows, run twice with more facts in between. The derived relation must equal the reference model's nested-loop evaluation and be identical on engines with tree decomposition on/off (global flag and :no-decomp), semi-naive on/off, and threaded under the token scheduler with the db-level cut-off at 0. Probes report how many bodies were planned as decomposed (and with >= 3 bags).",
+   note="Mostly a quantifier over inputs: the simulator contributes the configuration swarm and the controlled parallel join; the rest is seeded generation against a reference evaluator, stated as such in the evidence.",
+   tech="deterministic simulation over a configuration swarm + reference nested-loop evaluator"),
+ "C05": dict(cat="exploration", ref="DESIGN §5 C05",
+   text="For lattice functions (min, max, or, and, set-union, set-intersect; integer and e-class keys) the seed fixes a multiset of writes per key and then permutes and batches it across top-level sets, rule heads in several rulesets and iterations, re-delivery, and unions that collapse keys; a third of the cases run threaded under the token scheduler with the table-op cut-off at 0/1 so that the serial, per-shard parallel, in-batch staging and rebuild re-insertion collision paths all run. The stored value must equal the reference model's fold after every command; a :no-merge conflict must be an error.",
+   note="Merge expressions are ACI by construction. After a :no-merge conflict the rest of the history is not compared.",
+   tech="deterministic simulation (seeded write permutations/batching, token scheduler, parallel cut-offs) against the reference model's fold"),
+ "C07": dict(cat="exploration", ref="DESIGN §5 C07",
+   text="Extraction is queried on e-graphs reached through seeded histories (cyclic classes, zero and near-u64::MAX costs, ties, :unextractable, subsume, delete, containers, snapshots, threaded row orders). Each result is audited against the reference model: the term evaluates to the root's class, every node is a present, non-subsumed row of an extractable constructor, the recomputed saturating tree cost equals the reported cost and the model's least-fixpoint minimum; failure iff the model has no finite term; variants are in-class and rooted at distinct e-nodes; never a panic.",
+   note="The extractor is sequential and pure: the simulator supplies states and row orders, the oracle decides. One open known finding (panic with saturated costs, extract.rs:491) is keyed by its panic site.",
+   tech="deterministic simulation supplying reachable e-graphs + audit of every extraction against the reference model"),
+ "C10": dict(cat="exploration", ref="DESIGN §5 C10",
+   text="After a seeded prefix history the engine is cloned and schedule expressions related by a law run side by side: (run R n) vs n commands; nested vs flat repeat; (saturate s) vs repetition to a fixpoint, then s again must report updated=false on an unchanged database, and saturate is idempotent; seq associativity and unit; combined ruleset vs one ruleset with the same rules, also after a rule is added to a sub-ruleset; :until vs the manual check-then-run loop. Dumps and updated flags must agree, and the dump must equal the reference model's run of the same schedule.",
+   note="A metamorphic oracle over a deterministic function; the simulated dimension is the prefix history, thresholds and (sub-batch) thread schedule.",
+   tech="deterministic simulation of prefix histories + metamorphic schedule laws on engine clones + reference model"),
+ "C13": dict(cat="exploration", ref="DESIGN §5 C13",
+   text="Seeded histories interleave inserts, subsume (top level, rule heads, :subsume rewrites), unions that merge a subsumed row with a congruent non-subsumed one in either order, re-insertion, push/pop, and a final deletion phase (top-level and rule-head deletes, re-insertion of deleted tuples) followed by probe rules, checks and extractions. After every command the dump including each row's subsumed flag must equal the reference model's (max-combine, rules see only non-subsumed rows, check sees them, congruence still uses them, a deleted row is gone and every other row unchanged); extraction costs equal the model's minimum over non-subsumed rows.",
+   note="Deletions are confined to a final phase because the reference model evaluates naively (a naive re-run would re-derive a deleted row, semi-naive does not). The updated flag is not compared here.",
+   tech="deterministic simulation (seeded histories, thresholds forcing each row-rewriting path, token scheduler) with refinement checking against the reference model"),
+ "C14": dict(cat="exploration", ref="DESIGN §5 C14",
+   text="Container sorts over eq-sorts (Vec, Set, MultiSet, Map with integer keys, Pair, one nested level), tables keyed by and holding containers, rules mentioning ground containers (matchable only modulo the current equalities) and unions among their elements. After every command and single iteration the dump with container contents expanded must equal the reference model's (equal contents = one value, rows keyed by equal containers merged), and a naive engine must agree with the semi-naive one. Both rebuild strategies and serial/parallel container rebuild are forced per run by knobs, cut-offs and the token scheduler.",
+   note="Map keys are integers, so key collisions (id-order dependent, outside the claim) do not occur; id-order dependent primitives are not generated.",
+   tech="deterministic simulation (knobs for incremental/full rebuild, parallel container cut-offs 0, token scheduler) with refinement checking against the reference model plus naive/semi-naive differential"),
 }
 NOT_YET = "check not built yet in this round; will be claimed once its check is silent on the unchanged tree and sensitive to seeded breakage"
 NA = {
